@@ -37,7 +37,11 @@ pub fn bases(thorough: bool) -> Vec<Base> {
     // a compressed tail chunk that is shorter than the others: its payload laid over another chunk's
     // decodes fine, to fewer bytes than that chunk's descriptor promises
     add("fixed64-hl64-brotli-tail", Cfg::fixed(64), 64, Comp::Brotli(5), [vec![b'x'; 64], vec![b'y'; 64], vec![b'z'; 40]].concat());
+    // the shortest hash the command line accepts: every comparison made on "the first n bytes" must still be made
+    add("fixed4-hl4-none", Cfg::fixed(4), 4, Comp::None, b"AAAABBBBCCCCAAAADD".to_vec());
     if thorough {
+        add("fixed8-hl5-brotli", Cfg::fixed(8), 5, Comp::Brotli(3), [vec![b'x'; 8], vec![b'y'; 8], (0..5u8).collect()].concat());
+        add("rollsum-hl7-none", Cfg::new(Algo::Roll, 4, 4, 12, 2), 7, Comp::None, b"abcdefghabcdefghhgfedcbaabcdefgh0123".to_vec());
         add("buzhash-hl64-brotli", Cfg::new(Algo::Buz, 4, 5, 12, 2), 64, Comp::Brotli(4), b"abcdefghabcdefghhgfedcbaabcdefgh01234567".to_vec());
         add("fixed16-hl16-zstd", Cfg::fixed(16), 16, Comp::Zstd(3), [vec![b'q'; 16], vec![b'r'; 16], vec![b'q'; 16]].concat());
         add("fixed8-hl8-lzma", Cfg::fixed(32), 8, Comp::Lzma(2), [vec![b'm'; 32], vec![b'n'; 32]].concat());
